@@ -84,6 +84,10 @@ func c18ReportOptions(p *profile.Profile, o c18Opts, format int) *report.Options
 		SampleType:    p.SampleType[idx].Type,
 		SampleUnit:    p.SampleType[idx].Unit,
 		OutputUnit:    "minimum",
+		DropNegative:  o.DropNeg,
+	}
+	if o.Unit != "" {
+		ro.OutputUnit = o.Unit
 	}
 	if o.KeepAll {
 		ro.NodeFraction, ro.EdgeFraction = 0, 0
@@ -137,6 +141,7 @@ func c18Report(cs *c18Case, format int) (out []byte, g *graph.Graph, errText str
 // c18Compose runs graph.ComposeDot on the described graph.
 func c18Compose(d *c18Graph) (out []byte, errText string) {
 	g := &graph.Graph{}
+	var all []*graph.Node
 	for i := range d.Nodes {
 		n := &d.Nodes[i]
 		gn := &graph.Node{
@@ -155,13 +160,16 @@ func c18Compose(d *c18Graph) (out []byte, errText string) {
 			}
 			gn.NumericTags[string(nt.Key)] = tm
 		}
-		g.Nodes = append(g.Nodes, gn)
+		all = append(all, gn)
+		if i < len(d.Nodes)-d.Unlisted {
+			g.Nodes = append(g.Nodes, gn)
+		}
 	}
 	for _, e := range d.Edges {
-		if e.Src < 0 || e.Src >= len(g.Nodes) || e.Dst < 0 || e.Dst >= len(g.Nodes) {
+		if e.Src < 0 || e.Src >= len(all) || e.Dst < 0 || e.Dst >= len(all) {
 			continue
 		}
-		s, t := g.Nodes[e.Src], g.Nodes[e.Dst]
+		s, t := all[e.Src], all[e.Dst]
 		if s.Out[t] != nil {
 			continue
 		}
